@@ -319,3 +319,5 @@ H("C19", "html/boxes", "VxH_C19_scope", reach=["built"], bounds="body > x-a > x-
 H("C01", "html/boxes", "VxH_C01_quotes", reach=["built"], bounds="body > x-a > x-b, x-c; ::before/::after of x-a and x-b and ::before of x-c each one of {nothing, open-quote, close-quote, no-open-quote, no-close-quote}; quotes with two pairs (thorough: also one pair)", quick={"maxsteps": 80000000, "shards": 6})
 H("C09", "html/boxes", "VxH_C09_wellformed", reach=["built"], bounds="x-p > x-s > (text, x-i, text, x-j > x-k); display of x-p (2, thorough 3), x-s (3; 4), x-i (9; 19), x-j (5; 19), x-k (3; 4), float and position of x-i (2 each)", quick={"maxsteps": 80000000, "shards": 8}, thorough={"maxsteps": 80000000, "shards": 14})
 H("C16", "html/document", "VxH_C16_paint", reach=["laid-out", "drawn"], bounds="html > body > (section, article > nav, aside), unique background / border / outline colours; section {static,relative} x {z auto,-1,1} x {opaque,translucent}; article {static,relative} x {z auto,1} x {float none,left}; aside {static,relative} x {z auto,-1,0,1} (thorough: x translucent)", quick={"maxsteps": 200000000, "time": "800s", "shards": 8}, thorough={"maxsteps": 200000000, "shards": 14})
+for _p in ("C15", "C01", "C18"):
+    H(_p, "svg", "VxH_C15_svg_templates", reach=["resolved"], bounds="three gradient definitions, href of each one of {none, #g0, #g1, #g2} (all 64 reference graphs, cycles included), visiting order of the definitions map a solver-chosen permutation in two independent runs", quick={"maxsteps": 80000000, "shards": 6})
